@@ -213,7 +213,7 @@ func deadLabelPrograms() []*model.Script {
 		}
 	}
 	for ti, tail := range tails {
-		for k := 0; k < 8; k++ {
+		for k := 0; k < 10; k++ {
 			var body []model.Stmt
 			pre := []model.Stmt{{Kind: model.SIf, Arms: []model.Arm{{Cond: mflag("G"), Body: []model.Stmt{gto("L1")}}}}}
 			switch k {
@@ -231,6 +231,12 @@ func deadLabelPrograms() []*model.Script {
 				body = append(pre, model.Stmt{Kind: model.SSwitch, Operand: mvar("X"), Cases: []model.Case{{Val: 1, Body: append([]model.Stmt{mcmd("a"), {Kind: model.SBreak}}, tail...)}, {Default: true, Body: []model.Stmt{mcmd("d")}}}}, mcmd("z"))
 			case 6: // after goto
 				body = append(append(pre, mcmd("a"), gto("EXT")), tail...)
+			case 8: // after a break inside an if inside a switch case whose body goes on after the if
+				body = append(pre, model.Stmt{Kind: model.SSwitch, Operand: mvar("X"), Cases: []model.Case{{Val: 1, Body: []model.Stmt{
+					{Kind: model.SIf, Arms: []model.Arm{{Cond: mflag("P"), Body: append([]model.Stmt{mcmd("a"), {Kind: model.SBreak}}, tail...)}}}, mcmd("seen")}}, {Val: 2, Body: []model.Stmt{mcmd("d")}}}}, mcmd("z"))
+			case 9: // ... and inside a loop body that goes on after the if
+				body = append(pre, model.Stmt{Kind: model.SWhile, Cond: mflag("W"), Body: []model.Stmt{
+					{Kind: model.SIf, Arms: []model.Arm{{Cond: mflag("P"), Body: append([]model.Stmt{mcmd("a"), {Kind: model.SBreak}}, tail...)}}}, mcmd("seen")}}, mcmd("z"))
 			default: // after end inside an if body
 				body = append(pre, model.Stmt{Kind: model.SIf, Arms: []model.Arm{{Cond: mflag("P"), Body: append([]model.Stmt{{Kind: model.SEnd}}, tail...)}}}, mcmd("z"))
 			}
@@ -319,11 +325,32 @@ func runC04(tier string) int {
 		})
 	}
 	c04Tap = nil
+	// user labels whose names merely END in a sub-label name ('PreS_3' in script S): not imitations - the compiler accepts
+	// them - and they must survive like any other label
+	dead := deadLabelPrograms()
+	r.Parallel(uint64(len(dead)), func(w int, pi uint64) {
+		base := model.Print([]*model.Script{dead[pi]})
+		for n := 1; n <= 8; n++ {
+			name := fmt.Sprintf("PreS_%d", n)
+			src := labelL1Re.ReplaceAllString(base, name)
+			sc := cloneScript(dead[pi])
+			model.Walk(sc.Body, func(st *model.Stmt) {
+				if (st.Kind == model.SLabel || st.Kind == model.SGoto || st.Kind == model.SGotoIf) && st.Name == "L1" {
+					st.Name = name
+				}
+			})
+			scripts := []*model.Script{sc}
+			fp := &fileProgram{Desc: fmt.Sprintf("dead-label program %d with the label named %s", pi, name), Src: src, Owners: []string{"S"}, UserLabels: model.UserLabels(scripts), External: ext, Scripts: scripts}
+			r.Add("programs", 1)
+			r.Add("suffix_named_label_programs", 1)
+			checkClosure(r, fp)
+		}
+	})
 	c04MassFile(r, tier)
 	r.Assume("user-chosen names never imitate generated names (<script>_<n>, <script>_Text_<n>, <script>_Movement_<n>, <map>_<TYPE>...): generator guarantee",
 		"static run-off clause takes every branch as feasible and every label as a possible entry")
 	return r.Finish(r.Get("evaluations"), r.Get("nontrivial"),
-		"outputs of the C01 families and C03 switch programs (re-enumerated), a family with labels in dead code (after end/return/break/goto/infinite loop, in a body shared with default), multi-statement files, and the C06 hoisting and C08 mapscripts families at a reduced bound, and one mass file of N scripts (N in the coverage) scanned for labels defined once and references resolved; each case = one emitted file checked for: labels defined once, references resolved, user labels present once, no fall-through across a block boundary from any label, plus dynamic run-off exploration; non-trivial = >= 3 labels defined and a user label or hoisted datum present")
+		"outputs of the C01 families and C03 switch programs (re-enumerated), a family with labels in dead code (after end/return/break/goto/infinite loop, in a body shared with default), multi-statement files, and the C06 hoisting and C08 mapscripts families at a reduced bound, the dead-label programs with the label named 'PreS_<n>' for n <= 8 (a name that ends in a sub-label name), and one mass file of N scripts (N in the coverage) scanned for labels defined once and references resolved; each case = one emitted file checked for: labels defined once, references resolved, user labels present once, no fall-through across a block boundary from any label, plus dynamic run-off exploration; non-trivial = >= 3 labels defined and a user label or hoisted datum present")
 }
 
 // c04MassFile: one file with N scripts (systematic names, four body shapes with generated sub-labels). Any per-file
